@@ -3,10 +3,7 @@
 import importlib, json, os, sys
 sys.path.insert(0, os.path.dirname(os.path.dirname(os.path.abspath(__file__))))
 ALL = [f"C{i:02d}" for i in range(1, 20)]
-NA = {
-    "C16": "graph-algorithm results (component partition, value, distance) over all DAGs: no structural necessary condition in reach "
-           "that would not merely freeze today's source shape; static analysis is not applicable (DESIGN.md section 4 / 9)",
-}
+NA = {}
 TECH = "path-sensitive abstract interpretation of the anchored functions over finite model states (own AST interpreter, symbolic terms, effect traces) + whole-repo writer scans"
 checks, na = [], []
 for pid in ALL:
